@@ -441,6 +441,43 @@ pub fn dense_worker(tier: &str, k: usize, n: usize, ctx: &mut Ctx) {
   crate::clear_current_case();
 }
 
+/// Names that are not ASCII: the rule "an outer name is kept only if it matches the original text"
+/// compares characters, and a multi-byte name has more bytes than characters. Outer segments with
+/// every (position, name) combination over an intermediate text whose identifiers are multi-byte;
+/// the inner map is the identity onto a source that records the same text.
+pub fn multibyte_names_worker(_tier: &str, k: usize, n: usize, ctx: &mut Ctx) {
+  let gen = "ab;";
+  let original = "é=日本;x";
+  let names = ["é", "日本", "日", "x", "é=", "zz"];
+  let (gpos, _) = model::positions(gen);
+  let ncols = original.chars().count() as u32;
+  let mut okinds: Vec<Option<O4>> = vec![None];
+  for c in 0..ncols {
+    for ni in 0..names.len() as u32 {
+      okinds.push(Some((0, 1, c, Some(ni))));
+    }
+  }
+  let mut st = Striper::new(k, n);
+  for osegs in trees::seg_lists(&gpos, &okinds, 2) {
+    if osegs.is_empty() || !st.mine() {
+      continue;
+    }
+    for sparse in [false, true] {
+      // identity onto y0 (every character its own segment) / one segment per identifier start
+      let isegs: Vec<Seg> = (0..ncols).filter(|c| !sparse || [0, 2, 5].contains(c)).map(|c| Seg { gl: 1, gc: c, orig: Some((0, 1, c, None)) }).collect();
+      let mut im = MapSpec::new(isegs, &["y0"], None, &[]);
+      im.contents = Some(vec![original.to_string()]);
+      let om = MapSpec::new(osegs.clone(), &[INNER_NAME], None, &names);
+      let t = Term::Sms(Box::new(SmsSpec { value: gen.to_string(), name: INNER_NAME.to_string(), map: om, original_source: Some(original.to_string()), inner: Some(im), remove: false }));
+      crate::set_current_case(&t);
+      ctx.states += 1;
+      ctx.count("multibyte_name_cases");
+      c09_case(ctx, &t);
+    }
+  }
+  crate::clear_current_case();
+}
+
 /// Every subset of the character positions of a 2 x 6 original text as the inner map's segment
 /// set (each segment with its own original location), against every ordered pair of outer
 /// segments pointing anywhere into it: all relative shapes of two consecutive inner lookups
